@@ -383,10 +383,3 @@ Proof.
   repeat split; auto. cbn [rottoric_n_k_d]. rewrite H1, H2. lia.
 Qed.
 
-Print Assumptions rp_flatten_injective.
-Print Assumptions rp_flatten_surjective.
-Print Assumptions rt_flatten_injective.
-Print Assumptions rt_translation_target.
-Print Assumptions rp_logical_weights_all.
-Print Assumptions rp_site_operator_roundtrip.
-Print Assumptions rt_logical_weights_all.
